@@ -203,9 +203,127 @@ pub fn quantile_case(c: &Case, obs: &mut Obs) -> PResult {
     Ok(())
 }
 
+/// windowed binomial pmf for k in 0..=kmax (n huge, n p moderate); the mass beyond the window is < 1e-25
+fn binom_window(n: u64, p: f64, kmax: usize) -> Vec<f64> {
+    let mut v = vec![0.0f64; kmax + 1];
+    let mode = (((n + 1) as f64) * p).floor().min(kmax as f64) as usize;
+    v[mode] = 1.0;
+    let r = p / (1.0 - p);
+    for k in mode..kmax {
+        v[k + 1] = v[k] * ((n - k as u64) as f64 / (k + 1) as f64) * r;
+    }
+    for k in (1..=mode).rev() {
+        v[k - 1] = v[k] * (k as f64 / (n - k as u64 + 1) as f64) / r;
+    }
+    let s: f64 = v.iter().sum();
+    for x in v.iter_mut() {
+        *x /= s;
+    }
+    v
+}
+
+const RARE_POINTS: usize = 381;
+const RARE_KMAX: usize = 460;
+
+/// rare events on huge populations: n p (or n (1-p)) between 10 and 200 with n up to 10^12, where only a
+/// window of outcomes carries mass; same pointwise laws as the grid check
+pub fn rare_case(c: &Case, obs: &mut Obs) -> PResult {
+    let n = c.n;
+    let level = c.conf.l();
+    let kn = c.conf.kind_name();
+    let conf = c.conf.get();
+    let z = crate::meanref::crit_z(&c.conf).c;
+    let wilson = |k: u64| -> Option<(f64, f64)> {
+        if k < 2 || n - k < 2 {
+            return None;
+        }
+        let (nf, kf, ff) = (n as f64, k as f64, (n - k) as f64);
+        let z2 = z * z;
+        let center = (kf + z2 / 2.0) / (nf + z2);
+        let span = z / (nf + z2) * (kf * ff / nf + z2 / 4.0).sqrt();
+        Some(match c.conf.kind {
+            0 => (center - span.abs(), center + span.abs()),
+            1 => (center - span, 1.0),
+            _ => (0.0, center + span),
+        })
+    };
+    for mirrored in [false, true] {
+        let kof = |j: usize| if mirrored { n - j as u64 } else { j as u64 };
+        let mut bounds: Vec<Option<(f64, f64)>> = Vec::with_capacity(RARE_KMAX + 1);
+        for j in 0..=RARE_KMAX {
+            let k = kof(j) as usize;
+            match call(|| proportion::ci(conf, n as usize, k)) {
+                Out::Ok(Interval::TwoSided(a, b)) => bounds.push(Some((a, b))),
+                Out::Ok(other) => return crate::engine::fail("C12/proportion/kind", format!("ci({:?}, {n}, {k}) = {other:?}", c.conf)),
+                Out::Err(_) => bounds.push(None),
+                Out::Panic(p) => return crate::engine::fail("C12/proportion/panic", format!("ci({:?}, {n}, {k}) panicked: {p}", c.conf)),
+            }
+        }
+        obs.evals((RARE_KMAX + 1) as u64);
+        let reference: Vec<Option<(f64, f64)>> = (0..=RARE_KMAX).map(|j| wilson(kof(j))).collect();
+        let mut nontrivial = 0;
+        for i in 0..RARE_POINTS {
+            let lambda = 10.0 + 0.5 * i as f64 + 0.013 * (i % 7) as f64;
+            // probability of the rare outcome; on the mirrored side it is recomputed from the rounded p so that
+            // the pmf and the coverage test refer to the same representable p
+            let p = if mirrored { 1.0 - lambda / n as f64 } else { lambda / n as f64 };
+            let ptail = if mirrored { 1.0 - p } else { p };
+            let lambda = ptail * n as f64;
+            let pmf = binom_window(n, ptail, RARE_KMAX);
+            let near = NEAR * ptail; // relative band: the bounds themselves are of order lambda/n
+            let cov = |b: &Vec<Option<(f64, f64)>>| {
+                cover(&pmf, |j| match b[j] {
+                    None => (false, false),
+                    Some((a, bb)) => ((a <= p && p <= bb), (p - a).abs() <= near || (p - bb).abs() <= near),
+                })
+            };
+            let (ch, cl) = cov(&bounds);
+            let (_rh, rl) = cov(&reference);
+            obs.eval();
+            let floor = level - prop_min_slack(level);
+            let side = if mirrored { "common" } else { "rare" };
+            ensure!(ch >= floor, format!("C12/proportion_rare/min_coverage/{kn}"), "n={n}, p={p:e} (n p or n q = {lambda:.3}, {side} successes), {:?}: coverage {ch:.6} is below the documented floor {floor:.4}", c.conf);
+            ensure!(ch >= rl - 0.01, format!("C12/proportion_rare/min_vs_construction/{kn}"), "n={n}, p={p:e} (n p or n q = {lambda:.3}, {side} successes), {:?}: coverage {ch:.6}; the exact Wilson construction covers with probability {rl:.6} (allowed 0.01 below that)", c.conf);
+            obs.headroom(&format!("proportion_rare/min/{kn}"), (level - ch).max(0.0) / prop_min_slack(level), || json!({"n": n, "conf": c.conf, "coverage": ch, "p": p}));
+            if ch > 0.001 && cl < 0.9999 {
+                nontrivial += 1;
+            }
+            // quantile ranks for the q-quantile with q = p (B = observations below the true quantile ~ Bin(n, q))
+            if n <= (1u64 << 52) {
+                let ranks = match call(|| quantile::ci_indices(conf, n as usize, p)) {
+                    Out::Ok(i) => i,
+                    Out::Err(e) => return crate::engine::fail("C12/quantile/rejected", format!("ci_indices({:?}, {n}, {p:e}) = Err({e:?}) inside n q >= 10, n (1-q) >= 10", c.conf)),
+                    Out::Panic(pp) => return crate::engine::fail("C12/quantile/panic", format!("ci_indices({:?}, {n}, {p:e}) panicked: {pp}", c.conf)),
+                };
+                let (lo, hi) = match ranks {
+                    Interval::TwoSided(a, b) => (Some(a as u64), Some(b as u64)),
+                    Interval::UpperOneSided(a) => (Some(a as u64), None),
+                    Interval::LowerOneSided(b) => (None, Some(b as u64)),
+                };
+                // window index j counts the rare side: B = j (q small) or B = n - j (q close to 1)
+                let (qc, _) = cover(&pmf, |j| {
+                    let b = kof(j);
+                    (lo.map(|l| b >= l + 1).unwrap_or(true) && hi.map(|h| b <= h).unwrap_or(true), false)
+                });
+                let slack = quant_point_slack(n, p).min(0.6 / (lambda * (1.0 - ptail)).sqrt());
+                let dev = (qc - level).abs();
+                obs.eval();
+                obs.headroom(&format!("quantile_rare/pointwise/{kn}"), dev / slack, || json!({"n": n, "q": p, "conf": c.conf, "coverage": qc}));
+                ensure!(dev <= slack, format!("C12/quantile_rare/pointwise/{kn}"), "n={n}, q={p:e} (n q or n (1-q) = {lambda:.3}), {:?}: distribution-free coverage of ranks {ranks:?} is {qc:.5}, nominal {level} (slack {slack:.4})", c.conf);
+            }
+        }
+        obs.nontrivial_enum(nontrivial);
+        obs.class(&format!("proportion_rare/{}/{kn}", if mirrored { "common" } else { "rare" }));
+    }
+    if obs.wants_sample(&format!("rare/{kn}")) {
+        obs.sample(&format!("rare/{kn}"), || json!({"n": n, "conf": c.conf, "lambda_points": RARE_POINTS, "window": RARE_KMAX}));
+    }
+    Ok(())
+}
+
 pub fn run(run: &mut Run) {
     run.technique = "enumeration of a parameter grid with the coverage probability summed exactly over all binomial outcomes (own pmf) — generated-input search against documented slack laws".into();
-    run.rule = "n on a grid (quick {25,50,100,200,400,1000,1500,2500}; thorough every n in 21..=600 and 150 values to 5000) x levels {0.8,0.9,0.95,0.99} x 3 kinds; proportion: intervals for all k, coverage at 801 values of p in [10/n,1-10/n]; quantile: ranks from ci_indices at 397 values of q with n q >= 10 and n (1-q) >= 10; non-trivial = (n, level, kind, p or q) with coverage strictly inside (0.001, 0.9999), i.e. mass on both sides of a bound; enumerated once each".into();
+    run.rule = "n on a grid (quick {25,50,100,200,400,1000,1500,2500}; thorough every n in 21..=600 and 150 values to 5000) x levels {0.8,0.9,0.95,0.99} x 3 kinds; proportion: intervals for all k, coverage at 801 values of p in [10/n,1-10/n]; quantile: ranks from ci_indices at 397 values of q with n q >= 10 and n (1-q) >= 10; rare events: n in {20001 … 10^12} (thorough: 78 values from 6000 to 10^13) with n p resp. n (1-p) on 381 points in [10, 200], outcomes summed over the window that carries all but 1e-25 of the mass; non-trivial = (n, level, kind, p or q) with coverage strictly inside (0.001, 0.9999), i.e. mass on both sides of a bound; enumerated once each".into();
     crate::meanref::selftest_into(run);
     let ns: Vec<u64> = match run.tier {
         crate::engine::Tier::Quick => vec![25, 50, 100, 200, 400, 1000, 1500, 2500],
@@ -237,7 +355,37 @@ pub fn run(run: &mut Run) {
             crate::engine::case_on(obs, "proportion", &Case { n, conf }, proportion_case);
         }
     });
+    // rare events on huge populations (windowed sums)
+    let big: Vec<u64> = match run.tier {
+        crate::engine::Tier::Quick => vec![20_001, 110_001, 1_000_000, 12_345_678, 1_000_000_000_000],
+        crate::engine::Tier::Thorough => {
+            let mut v = vec![];
+            let mut x = 6000.0f64;
+            while x < 1e13 {
+                v.push(x as u64 | 1);
+                x *= 1.31;
+            }
+            v
+        }
+    };
+    let mut rare_jobs: Vec<(u64, Conf)> = vec![];
+    for &n in &big {
+        for &l in &LEVELS {
+            for k in 0u8..3 {
+                rare_jobs.push((n, Conf::new(k, l)));
+            }
+        }
+    }
+    let rj = &rare_jobs;
+    run.par(rare_jobs.len(), |j, obs| {
+        let (n, conf) = rj[j];
+        crate::engine::case_on(obs, "rare", &Case { n, conf }, rare_case);
+    });
     run.exhaustive = false;
+    for k in ["two", "upper", "lower"] {
+        run.require_class(&format!("proportion_rare/rare/{k}"));
+        run.require_class(&format!("proportion_rare/common/{k}"));
+    }
     for k in ["two", "upper", "lower"] {
         run.require_class(&format!("proportion/{k}/L0.95"));
         run.require_class(&format!("quantile/{k}/L0.8"));
@@ -251,6 +399,7 @@ pub fn replay(sub: &str, v: &Value, obs: &mut Obs) -> Option<PResult> {
     Some(match sub {
         "proportion" => proportion_case(&de(v), obs),
         "quantile" => quantile_case(&de(v), obs),
+        "rare" => rare_case(&de(v), obs),
         _ => return None,
     })
 }
